@@ -363,3 +363,159 @@ func conversionHelperConverts(c *core.Ctx) {
 		core.Undecidedf("no conversion helper (reflect.Value, reflect.Type -> reflect.Value with Convert under an assignability test) found")
 	}
 }
+
+// importerCodePerName (C14-R6): a module's code object is its own.  In the
+// importer, the *compiler.Code handed to NewModule and stored in the cache is
+// either the result of compiling in this call or the cache entry looked up by
+// the module's name.  The VM keys loaded code — and with it the globals array —
+// by the identity of the code object, so two modules that share one code object
+// share their globals.
+func importerCodePerName(c *core.Ctx) {
+	p := c.P
+	ip := p.Pkg("importer")
+	codeT := core.MustType(p.Pkg("compiler"), "Code")
+	n := 0
+	for _, fn := range repoFns(p, "importer") {
+		if fn.Name() != "Import" || fn.Signature.Recv() == nil {
+			continue
+		}
+		var nameP *ssa.Parameter
+		for _, prm := range fn.Params {
+			if core.IsStringType(prm.Type()) {
+				nameP = prm
+			}
+		}
+		if nameP == nil {
+			continue
+		}
+		judge := func(v ssa.Value) string {
+			for _, o := range core.Origins(v) {
+				switch x := o.(type) {
+				case *ssa.Extract:
+					switch t := x.Tuple.(type) {
+					case *ssa.Call:
+						if cal := t.Call.StaticCallee(); cal == nil || !core.RepoFunc(cal) {
+							return "comes from " + t.String()
+						}
+					case *ssa.Lookup:
+						if t.Index != ssa.Value(nameP) {
+							return "comes from a cache entry that is not looked up by the module's name (" + p.Pos(t.Pos()) + ")"
+						}
+					default:
+						return "comes from " + x.Tuple.String()
+					}
+				case *ssa.Lookup:
+					if x.Index != ssa.Value(nameP) {
+						return "comes from a cache entry that is not looked up by the module's name (" + p.Pos(x.Pos()) + ")"
+					}
+				case *ssa.Call:
+					if cal := x.Call.StaticCallee(); cal == nil || !core.RepoFunc(cal) {
+						return "comes from " + x.String()
+					}
+				case *ssa.Const:
+				default:
+					return "comes from " + o.String()
+				}
+			}
+			return ""
+		}
+		for _, b := range fn.Blocks {
+			for _, in := range b.Instrs {
+				var v ssa.Value
+				what := ""
+				switch x := in.(type) {
+				case *ssa.MapUpdate:
+					if core.NamedOf(x.Value.Type()) == codeT {
+						v, what = x.Value, "cached"
+					}
+				case *ssa.Call:
+					for _, a := range x.Call.Args {
+						if core.NamedOf(a.Type()) == codeT {
+							if cal := x.Call.StaticCallee(); cal != nil && cal.Name() == "NewModule" {
+								v, what = a, "given to NewModule"
+							}
+						}
+					}
+				}
+				if v == nil {
+					continue
+				}
+				n++
+				why := judge(v)
+				c.Check(why == "", core.SSAName(fn)+"|code-"+what+"#"+itoa(n)+"|own-code-object", p.Pos(in.Pos()),
+					"the code object "+what+" is compiled in this call or is this module's own cache entry"+ifs(why != "", ": it "+why))
+			}
+		}
+	}
+	_ = ip
+	if n == 0 {
+		core.Undecidedf("no Import method handling *compiler.Code found in package importer")
+	}
+}
+
+// rootHasNoParent (C18-R7, C17-R8): (*Code).Root returns a code object whose
+// parent link was tested nil — the receiver itself, or the end of a walk up the
+// parent chain.  The VM decides by Root() which loaded functions belong to the
+// reloaded main code and which globals array a function is given.
+func rootHasNoParent(c *core.Ctx) {
+	p := c.P
+	cp := p.Pkg("compiler")
+	codeT := core.MustType(cp, "Code")
+	m := core.MustMethod(codeT, "Root")
+	sf := p.SSAFunc(m)
+	parentF := fieldByName(codeT, "parent")
+	if parentF == nil {
+		core.Undecidedf("Code.parent not found")
+	}
+	bad := ""
+	n := 0
+	for _, b := range sf.Blocks {
+		for _, in := range b.Instrs {
+			r, ok := in.(*ssa.Return)
+			if !ok || len(r.Results) != 1 {
+				continue
+			}
+			n++
+			rv := spilledResult(b, r.Results[0])
+			// a dominating test "rv.parent == nil" taken on the nil side
+			okv := false
+			for d := b; d != nil; d = d.Idom() {
+				if len(d.Instrs) == 0 {
+					continue
+				}
+				iff, isIf := d.Instrs[len(d.Instrs)-1].(*ssa.If)
+				if !isIf || d == b {
+					continue
+				}
+				bo, isB := iff.Cond.(*ssa.BinOp)
+				if !isB {
+					continue
+				}
+				k, isC := bo.Y.(*ssa.Const)
+				if !isC || !k.IsNil() {
+					continue
+				}
+				ld, isL := bo.X.(*ssa.UnOp)
+				if !isL || ld.Op != token.MUL {
+					continue
+				}
+				fa, isFA := ld.X.(*ssa.FieldAddr)
+				if !isFA || fieldVar(fa) != parentF || fa.X != rv {
+					continue
+				}
+				nilSide := d.Succs[0]
+				if bo.Op == token.NEQ {
+					nilSide = d.Succs[1]
+				}
+				if nilSide == b || nilSide.Dominates(b) {
+					okv = true
+				}
+			}
+			if !okv {
+				bad = p.Pos(r.Pos())
+			}
+		}
+	}
+	c.Check(bad == "" && n > 0, "compiler.Code.Root|returns-a-parentless-code", p.Pos(sf.Pos()),
+		"every value Root() returns was tested to have no parent"+ifs(bad != "", "; the return at "+bad+" was not"))
+}
